@@ -88,7 +88,11 @@ func Refresh(data map[string]string) error {
 		case *AsyncLogger:
 			base = &config.LoggerBase
 			ref = &config.AppenderRefs
-		default: // for linter
+		case interface{ loggerBase() *LoggerBase }:
+			// loggers without appender references (console, file, ...)
+			return config.loggerBase(), nil
+		default:
+			return nil, errutil.Explain(nil, "logger type %s is not supported", v.Type().String())
 		}
 		for _, r := range ref.AppenderRefs {
 			appender, ok := cAppenders[r.Ref]
